@@ -1,12 +1,15 @@
 // Unit A10 — selection of managed policy statements from the running configuration (C16; C03 'malformed annotation').
 use vstd::prelude::*;
+// anyhow!(..): an opaque error value (the message text is irrelevant here)
+#[allow(unused_macros)]
+macro_rules! anyhow { ($($t:tt)*) => { crate::anyhow_shim() } }
 verus! {
 
 //@include units/common_xml.rs
 
-//@bytelits active=NameId::Active comment=NameId::Comment name=NameId::Name then=NameId::Then reject=NameId::Reject family=NameId::Family route-filter=NameId::RouteFilter
+//@bytelits active=NameId::Active comment=NameId::Comment name=NameId::Name then=NameId::Then reject=NameId::Reject family=NameId::Family route-filter=NameId::RouteFilter term=NameId::Term
 
-pub enum NameId { Active, Comment, Name, Then, Reject, Family, RouteFilter, Other }
+pub enum NameId { Active, Comment, Name, Then, Reject, Family, RouteFilter, Term, Other }
 #[verifier::opaque]
 pub open spec fn name_id(s: Seq<u8>) -> NameId {
     if s =~= seq![97u8, 99, 116, 105, 118, 101] { NameId::Active }                   // "active"
@@ -16,6 +19,7 @@ pub open spec fn name_id(s: Seq<u8>) -> NameId {
     else if s =~= seq![114u8, 101, 106, 101, 99, 116] { NameId::Reject }             // "reject"
     else if s =~= seq![102u8, 97, 109, 105, 108, 121] { NameId::Family }             // "family"
     else if s =~= seq![114u8, 111, 117, 116, 101, 45, 102, 105, 108, 116, 101, 114] { NameId::RouteFilter }   // "route-filter"
+    else if s =~= seq![116u8, 101, 114, 109] { NameId::Term }                        // "term"
     else { NameId::Other }
 }
 
@@ -283,6 +287,91 @@ impl TermFrom {
 //@end
 }
 } // mod installed
+
+// ---------- the installed-policy side: one <policy-statement> of the ephemeral instance (C01 'the agent reads back what it
+// installed, so that it can delete it once it is no longer managed'; C14) ----------
+pub struct Ipv4; pub struct Ipv6;
+pub struct Ranges<A> { pub id: Ghost<int>, pub _a: core::marker::PhantomData<A> }
+impl<A> core::default::Default for Ranges<A> {
+    #[verifier::external_body] fn default() -> (r: Self) { unimplemented!() }
+}
+//@item file=junos-agent/src/policies/mod.rs kind=struct name=Installed sub=/pub(crate) =>pub ;ipv4:=>pub ipv4:;ipv6:=>pub ipv6:/
+pub struct AnyhowErr;
+impl AnyhowErr { #[verifier::external_body] pub fn into(self) -> (r: BoxErr) { unimplemented!() } }
+#[verifier::external_body]
+pub fn anyhow_shim() -> (r: AnyhowErr) { unimplemented!() }
+impl CowStr {
+    // Cow<str>::as_ref
+    #[verifier::external_body]
+    pub fn as_ref(&self) -> (r: &str) { unimplemented!() }
+}
+impl TermFrom {
+    // TermFrom::try_into_ranges::<A>: parses the route-filters of the term into prefix ranges (generic-ip parsers: ASSUMED)
+    #[verifier::external_body]
+    pub fn try_into_ranges<A>(&self) -> (r: Result<Ranges<A>, ReadError>) { unimplemented!() }
+}
+pub struct Term { pub from: TermFrom }
+impl Term {
+    // Term::borrowed_read_xml: ASSUMED to consume the <term> subtree and to record one Data item (its <from> part is
+    // TermFrom::borrowed_read_xml, verified above)
+    #[verifier::external_body]
+    pub fn borrowed_read_xml(reader: &mut NsReader, start: &BytesStart) -> (r: Result<Term, ReadError>)
+        ensures final(reader).remaining@.len() <= old(reader).remaining@.len(),
+                r is Ok ==> final(reader).log@ == old(reader).log@.push(Item::Data),
+                r is Err ==> is_prefix(old(reader).log@, final(reader).log@),
+    { unimplemented!() }
+}
+// the agent's own statements end with the default action `then reject`: that, and nothing about their terms, is what marks a
+// statement of the ephemeral instance as one the agent installed (an empty filter has no terms at all)
+pub open spec fn is_reject_item(it: Item) -> bool {
+    it matches Item::Ev(ResolveResult::Bound(ns), Event::Empty(tag)) && ns == XNM && name_id(tag.lname@) == NameId::Reject
+}
+pub open spec fn reject_seen(s: Seq<Item>) -> bool { exists|i: int| 0 <= i < s.len() && is_reject_item(#[trigger] s[i]) }
+pub broadcast proof fn lemma_reject_seen_push(s: Seq<Item>, it: Item)
+    ensures #[trigger] reject_seen(s.push(it)) == (reject_seen(s) || is_reject_item(it)),
+{
+    let s2 = s.push(it);
+    if reject_seen(s) { let i = choose|i: int| 0 <= i < s.len() && is_reject_item(#[trigger] s[i]); assert(s2[i] == s[i]); }
+    if is_reject_item(it) { assert(s2[s.len() as int] == it); }
+    if reject_seen(s2) { let i = choose|i: int| 0 <= i < s2.len() && is_reject_item(#[trigger] s2[i]); if i < s.len() { assert(s2[i] == s[i]); } }
+}
+pub broadcast proof fn lemma_reject_seen_empty()
+    ensures !#[trigger] reject_seen(Seq::<Item>::empty()),
+{
+}
+
+pub mod installed_stmt {
+use super::*;
+broadcast use {xml_log_lemmas, lemma_reject_seen_push, lemma_reject_seen_empty};
+impl Maybe<Installed> {
+//@extract id=maybe_installed_read_xml file=junos-agent/src/policies/fetch.rs impl=/impl ReadXml for Maybe<Installed>/ fn=read_xml rules=R1,R2,R7,R8,R11,R15,R17 r7map=option r7pathmap=result constpats=XNM vis=pub
+//@local default_reject /let mut (\w+) = false;/
+//@contract
+        ensures
+            res is Ok ==> final(reader).remaining@.len() <= old(reader).remaining@.len(),
+            res is Ok ==> is_prefix(old(reader).log@, final(reader).log@),
+            // C01: a statement is taken for one the agent installed exactly if it ends with the default reject action -
+            // whether or not it has address-family terms (a filter that evaluated to nothing is installed without terms,
+            // and must still be read back so that it is deleted once it is no longer managed)
+            res matches Ok(Maybe(sel)) ==> (sel is Some <==> reject_seen(seg_of(old(reader).log@, final(reader).log@))),   // OBL:C01.fetch.installed_statement_is_recognised_by_its_default_reject
+//@loop 1
+            invariant
+                is_prefix(old(reader).log@, reader.log@),
+                reader.remaining@.len() <= old(reader).remaining@.len(),
+                default_reject <==> reject_seen(seg_of(old(reader).log@, reader.log@)),            // OBL:C01.fetch.default_reject_tracks_the_log
+            decreases reader.remaining@.len(),                                                    // OBL:C14.installed.body_loop_terminates
+//@loop 2
+                        invariant
+                            is_prefix(old(reader).log@, reader.log@),
+                            reader.remaining@.len() <= rem_at_then,
+                            rem_at_then <= old(reader).remaining@.len(),
+                            default_reject <==> reject_seen(seg_of(old(reader).log@, reader.log@)),   // OBL:C01.fetch.default_reject_tracks_the_log_in_then
+                        decreases reader.remaining@.len(),                                        // OBL:C14.installed.then_loop_terminates
+//@before /let end = tag\.to_end\(\);/
+                    let ghost rem_at_then = reader.remaining@.len();
+//@end
+}
+} // mod installed_stmt
 
 } // verus!
 fn main() {}
